@@ -50,6 +50,21 @@ func init() {
 			}
 			return done(Slice{Arr: obj, Len: n, Cap: n})
 		},
+		"nondetGarbage": func(e *Exec, t *Thread, a []Value, g bool) (Value, bool) {
+			n := int(e.intArg(a[0]))
+			obj := e.newArrayObj(types.Typ[types.Uint8], n)
+			for i := 0; i < n; i++ {
+				v := e.newNondet(8, "g8")
+				e.garbage[v.Name] = true
+				obj.V.(*Array).E[i] = v
+			}
+			return done(Slice{Arr: obj, Len: n, Cap: n})
+		},
+		"verifIndep": func(e *Exec, t *Thread, a []Value, g bool) (Value, bool) {
+			// syntactic independence of a term from the garbage/stale variables
+			return done(e.C.BoolConst(!e.mentionsGarbage(a[0].(*term.T))))
+		},
+		"verifObserveNative": func(e *Exec, t *Thread, a []Value, g bool) (Value, bool) { return done(nil) },
 		"nondetLen": func(e *Exec, t *Thread, a []Value, g bool) (Value, bool) {
 			lo, hi := e.intArg(a[0]), e.intArg(a[1])
 			k := e.Choose(int(hi-lo+1), "nondetLen")
@@ -452,6 +467,27 @@ func init() {
 	}
 }
 
+func (e *Exec) mentionsGarbage(t *term.T) bool {
+	seen := map[int]bool{}
+	var rec func(x *term.T) bool
+	rec = func(x *term.T) bool {
+		if x.Op == term.OpConst || seen[x.ID] {
+			return false
+		}
+		seen[x.ID] = true
+		if x.Op == term.OpVar {
+			return e.garbage[x.Name]
+		}
+		for _, a := range x.Args {
+			if rec(a) {
+				return true
+			}
+		}
+		return false
+	}
+	return rec(t)
+}
+
 // ifaceTarget loads the value an interface holding a pointer points to.
 func (e *Exec) ifaceTarget(v Value) Value {
 	iv := v.(Iface)
@@ -561,11 +597,16 @@ func (e *Exec) indexByte(bs []*term.T, c *term.T) *term.T {
 
 // latin1Encode: input is UTF-8 bytes of a Go string; each rune <= 0xFF becomes one byte, otherwise error.
 func (e *Exec) latin1Encode(in Slice) Value {
-	bs := make([]*term.T, in.Len)
-	for i := range bs {
-		bs[i] = e.sliceElem(in, i).(*term.T)
+	var rs []*term.T
+	if in.Arr != nil && in.Arr.Lazy != nil {
+		rs = e.strRunes(in.Arr.Lazy)
+	} else {
+		bs := make([]*term.T, in.Len)
+		for i := range bs {
+			bs[i] = e.sliceElem(in, i).(*term.T)
+		}
+		rs = e.strRunes(&Str{B: bs})
 	}
-	rs := e.strRunes(&Str{B: bs})
 	out := make([]*term.T, 0, len(rs))
 	for _, r := range rs {
 		// x/text replaces nothing: runes beyond the repertoire are an error (incl. U+FFFD from invalid UTF-8)
@@ -587,7 +628,13 @@ func (e *Exec) latin1Decode(in Slice) Value {
 	for i := range rs {
 		rs[i] = e.C.ZExt(e.sliceElem(in, i).(*term.T), 32)
 	}
-	bs := e.strBytes(&Str{R: rs, Runes: true})
+	str := &Str{R: rs, Runes: true}
+	if !e.allASCII(str) {
+		obj := e.newObj(nil, &Array{})
+		obj.Lazy = str
+		return Tuple{Slice{Arr: obj, Len: len(rs), Cap: len(rs)}, Iface{}}
+	}
+	bs := e.strBytes(str)
 	obj := e.newArrayObj(types.Typ[types.Uint8], len(bs))
 	for i, b := range bs {
 		obj.V.(*Array).E[i] = b
